@@ -237,3 +237,5 @@ def tail_read_after_it_is_complete(ctx: Ctx) -> None:
 
 
 share("C08", "C08.R9", tail_read_after_it_is_complete)
+
+share("C09", "C09.R7", whitespace_only_text)  # whether a simple value stays a plain string must not depend on layout whitespace after it
